@@ -96,19 +96,25 @@ func devRun(args []string) {
 }
 
 func solverFromEnv() interp.SolverKind {
+	// cvc5 decides the mixed bit-vector / floating-point queries of this code
+	// base far faster than z3 (probe: 144 numeric type pairs in 17 s vs.
+	// hundreds of 10 s timeouts); z3 is the fallback on unknown
 	switch os.Getenv("VERIF_SOLVER") {
 	case "z3new":
 		return interp.SolverZ3New
-	case "cvc5":
-		return interp.SolverCVC5
+	case "z3":
+		return interp.SolverZ3
 	}
-	return interp.SolverZ3
+	return interp.SolverCVC5
 }
 
 func printResult(res *interp.Result) {
 	s := res.Stats
 	fmt.Printf("%s: paths=%d nontrivial=%d infeasible=%d steps=%d wall=%.1fs complete=%v\n", res.Harness, s.Paths, s.PathsNontriv, s.Infeasible, s.Steps, res.Wall.Seconds(), res.Complete)
 	fmt.Printf("  queries: feas=%d assert=%d cached=%d modelhit=%d unknown=%d solver=%.1fs (%d calls) asserts=%d (trivial %d)\n", s.QFeas, s.QAssert, s.QCached, s.QModelHit, s.QUnknown, res.SolverTime.Seconds(), res.SolverQ, s.AssertsChecked, s.AssertsTrivial)
+	if res.SolverQ2 > 0 {
+		fmt.Printf("  fallback solver: %d queries %.1fs\n", res.SolverQ2, res.SolverTime2.Seconds())
+	}
 	fmt.Printf("  decisions:")
 	for k := interp.DecKind(0); k < interp.DkNumKinds; k++ {
 		if s.Decisions[k] > 0 {
